@@ -42,6 +42,14 @@ fn check_views<H: Hist>(h: &H, counts: &[u64], edges: &[f64], who: &str, o: &mut
         return fail("views:iter-len", format!("{}: iteration yields {} / {} items for LEN = {}", who, items.len(), items2.len(), H::LEN));
     }
     let total: u64 = counts.iter().sum();
+    // the iterators obey the Iterator protocol: nth / skip / step_by / count / last / size_hint agree with
+    // next()-by-next() iteration (quadratic in LEN, so LEN = 100 is probed on one state in seven)
+    if H::LEN <= 10 || total % 7 == 0 {
+        o.evals += 1;
+        if let Err(m) = h.iter_protocol() {
+            return fail("views:iterator-protocol", format!("{}: {}", who, m));
+        }
+    }
     let (w, c, nb, vs) = (h.widths(), h.centers(), h.normalized_bins(), h.variances());
     if w.len() != H::LEN || c.len() != H::LEN || nb.len() != H::LEN || vs.len() != H::LEN {
         return fail("views:len", format!("{}: views yield {}/{}/{}/{} items for LEN = {}", who, w.len(), c.len(), nb.len(), vs.len(), H::LEN));
